@@ -41,6 +41,20 @@ func c09Case(c *mon.Ctx, aText, bText string, prof gen.Profile) {
 	c.Input("b", bText)
 	a, b := ref.MustJSON(aText), ref.MustJSON(bText)
 	mk := func() jd.Diff { return ReadJ(aText).Diff(ReadJ(bText)) }
+	if c.Index%7 == 3 {
+		// both operands built by Patch (from each other's perturbations), not re-parsed: what a program holds after patching
+		seedA, seedB := c.R.U64(), c.R.U64()
+		pa, okA := viaPatch(gen.New(seedA), a)
+		pb, okB := viaPatch(gen.New(seedB), b)
+		if okA && okB && pa != nil && pb != nil {
+			mk = func() jd.Diff {
+				x, _ := viaPatch(gen.New(seedA), a)
+				y, _ := viaPatch(gen.New(seedB), b)
+				return x.Diff(y)
+			}
+			c.Feature("operands_built_by_patch")
+		}
+	}
 	hs := Hunks(mk())
 	diffFeatures(c, hs)
 	txt, err := mk().RenderPatch()
